@@ -35,9 +35,11 @@ func VerifH_C14_finisher_workers() {
 		switch verifrt.Choice("op", 3) {
 		case 0:
 			pause.Pause("verif")
+			verifrt.Settle()
 			paused = true
 		case 1:
 			pause.Resume()
+			verifrt.Settle()
 			paused = false
 		case 2:
 		}
